@@ -258,9 +258,11 @@ MUTANTS = [
     M("c10", "trso", TR, "        new_surrogate_interventions = {}\n", "        new_surrogate_interventions = query.surrogate_interventions\n", ["C05"],
       "line 10 in the target domain keeps the experiments: a later line 6 reads the c-factor carried by the recursion as if it were the "
       "source domain's experimental distribution (needs line 10 followed by a usable experiment)"),
-    M("c11", "trso", TR, "    elif _pillow_has_transport(graph, target_district):\n        return None\n", "    elif False:\n        return None\n", ["C05"],
-      "dropped guard: line 10 inside a source domain proceeds although a selection node points into the district's Markov pillow "
-      "(P(v | pre) then differs between the domains)"),
+    M("c11", "trso", TR, "    elif _pillow_has_transport(graph, target_district):\n        return None\n", "    elif False:\n        return None\n", OUT,
+      "dropped guard: line 10 inside a source domain proceeds although a selection node points into the district's Markov pillow. The guard "
+      "only REFUSES: after line 6 the whole remaining run is ID inside the source domain's own experimental distribution (the transport step "
+      "was justified by the separation test at line 6), so continuing is sound; 3 of 20 000 sampled queries change their output and all three new "
+      "estimands equal P*(y|do(x)) on the exact oracle (first classified as breaking C05: completeness with declared experiments is not claimed)"),
     M("c12", "trso", TR, "        district for district in districts if district_without_interventions.issubset(district)\n",
       "        district for district in districts if district_without_interventions & district\n", EQ,
       "districts partition the nodes and the district of G - X lies inside one of them: subset and overlap coincide"),
@@ -289,12 +291,20 @@ MUTANTS = [
     M("v01", "vocab", IDS, "        return P(child | ordering[:index])\n", "        return P(child @ ordering[:index]) if index else P(child)\n", ["C06"],
       "ID: the predecessors become intervention subscripts instead of conditions"),
     M("v02", "vocab", IDS, "    return Sum.safe(estimand, ordering[index + 1 :]) / Sum.safe(estimand, ordering[index:])\n",
-      "    return Sum.safe(estimand, [v @ child for v in ordering[index + 1 :]]) / Sum.safe(estimand, ordering[index:])\n", ["C06"],
-      "ID, carried branch only (line 7 followed by line 6 / 7): the numerator sums over counterfactual copies of the later variables"),
+      "    return Sum.safe(estimand, [v @ child for v in ordering[index + 1 :]]) / Sum.safe(estimand, ordering[index:])\n", OUT,
+      "ID, carried branch only (line 7 followed by line 6 / 7): the numerator is to sum over counterfactual copies of the later variables - but "
+      "Sum refuses counterfactual ranges (TypeError 'Ranges must not be counterfactuals nor interventions'): no estimand is returned, C06 "
+      "holds vacuously and the crash is C02's business (first classified as breaking C06)"),
     M("v03", "vocab", IDS, "            p_parents(v, parents, identification.estimand) for v in district_without_treatment\n        )\n        ranges = district_without_treatment - outcomes\n",
       "            p_parents(v, parents, identification.estimand) for v in district_without_treatment\n        )\n        ranges = {v @ treatments for v in district_without_treatment - outcomes} if len(treatments) > 2 else district_without_treatment - outcomes\n",
-      ["C06"],
-      "ID line 6: with three or more treatments the summation variables carry the treatments as subscripts (needs |X| >= 3 at line 6 with a non-outcome in the district)"),
+      OUT,
+      "ID line 6: with three or more treatments the summation variables are to carry the treatments as subscripts (needs |X| >= 3 at line 6 with a "
+      "non-outcome in the district) - Sum refuses counterfactual ranges with a TypeError, so no estimand is returned (C02's business; first "
+      "classified as breaking C06)"),
+    M("v12", "vocab", IDS, "    return Sum.safe(estimand, ordering[index + 1 :]) / Sum.safe(estimand, ordering[index:])\n",
+      "    return Sum.safe(estimand, ordering[index + 1 :]) / Sum.safe(estimand, ordering[index:]) if index + 1 < len(ordering) else P(child @ ordering[:index])\n", ["C06"],
+      "ID, carried branch only (line 7 followed by line 6 / 7): the LAST variable of the topological order is returned as an interventional term "
+      "P_{pre}(child) (added in round 2 to replace v02 / v03)"),
     M("v04", "vocab", IDSTAR, "        return Probability.safe(bases, interventions=interventions)\n", "        return Probability.safe(list(cf_graph.nodes()))\n", ["C06"],
       "ID* line 9 returns P over the raw nodes of the counterfactual graph: variables of different worlds in one term"),
     M("v05", "vocab", IDSTAR, "        return Probability.safe(bases, interventions=interventions)\n",
